@@ -45,6 +45,17 @@ class P(framework.Prop):
         for _ in range(M):
             f, given, e, c = rng.choice(cs)
             out.append("search %s %s" % (wire.s(e), wire.val(rng.choice(givens))))
+        # random sentences of the grammar through compile + search (the tree the parser builds is part of the result)
+        K = 2500 if tier == "quick" else 120000
+        for _ in range(K):
+            toks = gen.gen_expr(rng, rng.choice([2, 3, 3, 4, 5]))
+            out.append("search %s %s" % (wire.s(gen.render(rng, toks, 1.0)), wire.val(rng.choice(docs) if rng.random() < 0.6 else gen.rand_doc(rng, 3))))
+        POST = ["[0]", "[-1]", "[*]", "[]", "[?a]", "[?b]", "[1:]", "[::-1]", ".*", ".a", ".b", ".[a,b]", ".{x:a}"]
+        chain_doc = wire.val({"a": [{"a": True, "b": [{"a": 1, "b": 2}, {"a": None, "b": [3]}]}, {"a": [1, [2]], "b": {"a": [{"b": 1}], "b": 0}}, {"b": [{"a": 0}]}],
+                              "b": {"a": [[{"a": 1, "b": []}], {"b": {"a": True}}], "b": [{"a": {"b": 1}}, {"a": [{"b": [1, 2]}]}]}})
+        for _ in range(1500 if tier == "quick" else 60000):
+            e = rng.choice(["a", "b", "@", "*", "[*]", "[]", "[?a]"]) + "".join(rng.choice(POST) for _ in range(rng.randint(2, 5)))
+            out.append("search %s %s" % (wire.s(e), chain_doc))
         for v in [None, True, False, 0, 1, -1, 0.0, "", "a", [], [0], {}, {"a": None}, [None], [[]]]:
             out.append("truthy " + wire.val(v))
         return out
